@@ -30,6 +30,7 @@ type Site struct {
 	Line      int    `json:"line"`
 	Func      string `json:"func"`
 	FuncFirst bool   `json:"func_first"` // first statement of a function body
+	Hot       bool   `json:"hot"`        // statement mentions a package-level variable that is not an error sentinel, or a synchronisation/atomic access
 	Global    bool   `json:"global"`     // statement mentions a package-level variable or a synchronisation/atomic access
 }
 
@@ -145,6 +146,7 @@ func RunOpts(srcDir, dstDir string, rewrite bool) (*Descriptor, error) {
 	parsed := map[string]*ast.File{}
 	srcs := map[string][]byte{}
 	pkgVars := map[string]map[string]bool{} // dir -> names
+	pkgMut := map[string]map[string]bool{}  // dir -> names of package-level variables that are not error sentinels
 	for _, rel := range goFiles {
 		src, err := os.ReadFile(filepath.Join(srcDir, rel))
 		if err != nil {
@@ -164,6 +166,7 @@ func RunOpts(srcDir, dstDir string, rewrite bool) (*Descriptor, error) {
 		dir := filepath.Dir(rel)
 		if pkgVars[dir] == nil {
 			pkgVars[dir] = map[string]bool{}
+			pkgMut[dir] = map[string]bool{}
 		}
 		for _, decl := range f.Decls {
 			gd, ok := decl.(*ast.GenDecl)
@@ -178,6 +181,7 @@ func RunOpts(srcDir, dstDir string, rewrite bool) (*Descriptor, error) {
 					}
 					pkgVars[dir][n.Name] = true
 					if !isErrSentinel(vs, i) {
+						pkgMut[dir][n.Name] = true
 						d.PkgVars = append(d.PkgVars, rel+":"+n.Name)
 					}
 				}
@@ -225,10 +229,12 @@ func RunOpts(srcDir, dstDir string, rewrite bool) (*Descriptor, error) {
 		var ins []insertion
 		tf := fset.File(f.Pos())
 
+		importsSync := false
 		for _, imp := range f.Imports {
 			p := strings.Trim(imp.Path.Value, `"`)
 			if p == "sync" || p == "sync/atomic" {
 				d.SyncImports = append(d.SyncImports, rel+":"+p)
+				importsSync = true
 			}
 		}
 
@@ -244,11 +250,17 @@ func RunOpts(srcDir, dstDir string, rewrite bool) (*Descriptor, error) {
 				}
 				if idn, ok := n.(*ast.Ident); ok && pkgVars[dir][idn.Name] {
 					s.Global = true
+					if pkgMut[dir][idn.Name] {
+						s.Hot = true
+					}
 				}
 				if sel, ok := n.(*ast.SelectorExpr); ok && syncishSelector[sel.Sel.Name] {
 					// a synchronisation or atomic access: windows between two of these are where
 					// atomicity violations live, so the global-biased strategy prefers to switch here
 					s.Global = true
+					if importsSync {
+						s.Hot = true // (x.Get, x.Add, ... in a file that imports neither sync nor sync/atomic is something else)
+					}
 				}
 				return true
 			})
@@ -436,11 +448,11 @@ func RunOpts(srcDir, dstDir string, rewrite bool) (*Descriptor, error) {
 	hb.WriteString("// Leave undoes one Enter.\n//\n//go:norace\nfunc Leave(id int) {\n\tif Hook == nil || !Active {\n\t\treturn\n\t}\n\tfor i := range gates {\n\t\tif gates[i].depth > 0 && gates[i].id == id && gates[i].owner == CurTask {\n\t\t\tgates[i].depth--\n\t\t\treturn\n\t\t}\n\t}\n}\n\n")
 	hb.WriteString("// ResetGates opens every gate (called by the harness between runs).\n//\n//go:norace\nfunc ResetGates() {\n\tfor i := range gates {\n\t\tgates[i].depth = 0\n\t}\n}\n\n")
 	hb.WriteString("// Active is set by the harness around the concurrent phase of a run.\nvar Active bool\n\n// NoPreempt is kept for compatibility (always 0).\nvar NoPreempt int\n\n")
-	hb.WriteString("// SiteInfo describes one yield site.\ntype SiteInfo struct {\n\tFile string\n\tLine int\n\tFunc string\n\tFuncFirst bool\n\tGlobal bool\n}\n\n")
+	hb.WriteString("// SiteInfo describes one yield site.\ntype SiteInfo struct {\n\tFile string\n\tLine int\n\tFunc string\n\tFuncFirst bool\n\tGlobal bool\n\tHot bool\n}\n\n")
 	fmt.Fprintf(&hb, "// OpOnly is set when the module contains blocking synchronisation of its own.\nconst OpOnly = %v\n\n", d.OpOnly)
 	hb.WriteString("// Sites is the table of generated yield sites.\nvar Sites = [...]SiteInfo{\n")
 	for _, s := range d.SiteTable {
-		fmt.Fprintf(&hb, "\t{%q, %d, %q, %v, %v},\n", s.File, s.Line, s.Func, s.FuncFirst, s.Global)
+		fmt.Fprintf(&hb, "\t{%q, %d, %q, %v, %v, %v},\n", s.File, s.Line, s.Func, s.FuncFirst, s.Global, s.Hot)
 	}
 	hb.WriteString("}\n")
 	if err := writeFile(filepath.Join(dstDir, HookPkgDir, "hook.go"), hb.Bytes()); err != nil {
